@@ -82,7 +82,8 @@ LinkOk(a, b, o) ==
   /\ edges' = WithEdge(edges, nextE, a, b) /\ eObj' = WithObj(eObj, nextE, o) /\ nextE' = nextE + 1
   /\ Inval("AddSon") /\ res' = "ok" /\ op' = <<"AddSon", o>>
   /\ UNCHANGED <<directed, nodes, nextN, root>> /\ Ghost
-\* observer.link(a, b [, o]): must succeed on a fresh relation
+\* observer.link(a, b [, o]): must succeed on a fresh relation.  (Its behaviours
+\* are a subset of AddSon's, so Next does not list it; TreeTrace.tla uses it.)
 Link(a, b, o) ==
   IF LinkPre(a, b, o)
   THEN \/ LinkOk(a, b, o)
@@ -185,7 +186,6 @@ QStruct == res' = "ok" /\ NoOp /\ UNCHANGED <<gvars, valid, cache>>
 Next ==
   \/ CreateNode
   \/ \E a, b \in NodeIds, o \in Objs : AddSon(a, b, o)
-  \/ \E a, b \in NodeIds, o \in Objs : Link(a, b, o)
   \/ \E n, f \in NodeIds, o \in Objs : SetFather(n, f, o)
   \/ \E a, b \in NodeIds : RemoveSon(a, b)
   \/ \E n \in NodeIds : DeleteNode(n)
@@ -249,4 +249,6 @@ RefCoherent ==
                         /\ (Sons(edges, n) = {}) = (LeavesUnder(edges, n) = {n})
                         /\ Cardinality(SubEdges(edges, n)) = Cardinality(Desc(edges, n)) - 1
                         /\ Mrca(nodes, edges, Desc(edges, n)) = n
+    /\ LET D == DescTable(nodes, edges) IN                                      \* the memoised form agrees
+          \A Q \in SUBSET nodes \ {{}} : MrcaT(D, Q) = Mrca(nodes, edges, Q)
 =============================================================================
